@@ -691,3 +691,28 @@ KEEP_AGENTS = [
     ('R12-4', 'DIFF', 'R_C12_4.diff', None, ALL, 'extract helper method + temporaries removed/introduced; push loop -> into_iter().filter().collect(); manual length check and element-wise copy -> TryFrom<Vec<f64>> for [f64; 6]: Cartesian::add_interme'),
 ]
 KEEP += KEEP_AGENTS
+
+# rewrites by independent authors that are NOT silent yet (the checks report them or stop): kept in the catalogue, reported as
+# open by tools/run_selftest.py, one reason each (DESIGN 8.5, eighth campaign)
+OPEN_REWRITES = {
+    'R01-2': 'the verification loop of the 5-DOF solver as into_iter().enumerate().filter_map(..) with the position gate inlined: R01.4/R02.2/R06.x read the loop form',
+    'R02-1': 'validation loop of inverse_intern with enumerate().all(..) and a continue guard: R01.4 finite-slots / R02.2 verify-all-rows read the flag-and-break form',
+    'R02-4': 'rows 4..7 of the candidate table generated in a loop from rows 0..3: the table is read from one array aggregate',
+    'R03-2': 'forward_with_joint_poses as a table of (offset, axis, angle) and a loop filling [Pose; 6]: R03.1/R03.2 read the six chained products',
+    'R04-2': 'comparator of sort_by_closeness through an inner `cost` closure: R04.4 reads the cost expression inside the comparator',
+    'R04-3': 'near-normaliser as a value-returning fn applied through array::from_fn: role and call sites are read as fn(&mut f64, f64)',
+    'R06-2': 'normalisation of J1..J5 in a helper returning Option<Joints>: R01.4/R02.2 read the in-place loop',
+    'R06-4': 'YAML/URDF loaders destructure and rebuild the sign array, dof by match: R06.5, R19.3, R20.4 read the in-place assignment',
+    'R07-3': 'URDF limits through a NO_LIMITS constant and destructuring assignment: R20.2/R20.4/R06.5 read the field stores',
+    'R09-2': 'LinearAxis::forward writes the distance into a zeroed [f64; 3] at index axis: R09.5 reads the three match arms',
+    'R09-3': 'the four Frame inverse entry points through solve_unframed(tcp, |robot, pose| ..): the inner call sits in a closure handed to a helper',
+    'R10-1': 'pair decision split into may_be_within() / distance() helpers joined by && and bool::then: R10.4 reads the calls in the decision body',
+    'R12-1': 'pose list built from an anchor list walked with windows(2): R12.5 reads the push sites of LAND / TRACE / PARK',
+    'R12-2': 'flags of a Cartesian extension by split_last + extend, RRT gap by find_map: R12.5 reads the per-item flag choice',
+    'R13-2': 'ancestor walk by iter::successors, path assembly by rev().chain().collect(), orientation tested on the other tree: R13.3 reads the two walks, reverse and append',
+    'R15-4': 'Jacobian columns as [Vector6; 6] from array::from_fn assembled with from_columns: R15.1 reads the (position, rotation) pair and the two copy_from',
+    'R16-4': 'Parallelogram through inverse_with(|robot| ..) / forward_with(qs, |robot, joints| ..): the inner call sits in a closure handed to a helper',
+    'R17-2': 'source and target bases through orthonormal_basis(o, x, y) -> Option<Matrix3> and ok_or_else(..)?: R17.1/R17.2 read the two column triples',
+    'R17-4': 'as R04-2 (cost closure inside the comparator)',
+    'R19-2': 'from_yaml_file blocks J6 by an array pattern match, dof from a match on the (top-level, nested) pair: R06.5 reads the in-place assignment',
+}
